@@ -446,6 +446,41 @@ func handle(req Request) Response {
 					resp.Setup = "row of NULLs only cannot be inserted"
 					return resp
 				}
+				negative := false
+				for _, v := range row {
+					if (v.T == "i" || v.T == "I") && v.V < 0 {
+						negative = true
+					}
+				}
+				if negative {
+					// SQL text has no negative literals; such rows enter a table the way cmd/csvimport stores them:
+					// through engine.EvaluateInsert with typed values
+					var vals []interface{}
+					for _, v := range row {
+						switch v.T {
+						case "i", "I":
+							vals = append(vals, v.V)
+						case "s":
+							vals = append(vals, str(v.S))
+						case "b":
+							vals = append(vals, v.V != 0)
+						}
+					}
+					q := sql.InsertStatement{TableName: n, InsertColumnsAndSource: sql.InsertColumnsAndSource{
+						InsertColumnList: sql.InsertColumnList{ColumnNames: cs},
+						QueryExpression: sql.TableValueConstructor{TableValueConstructorList: []sql.RowValueConstructor{{RowValueConstructorList: vals}}}}}
+					r := guarded(func() Res {
+						if _, err := engine.EvaluateInsert(q, sess.RelationService); err != nil {
+							return Res{Err: true, Msg: err.Error()}
+						}
+						return Res{}
+					})
+					if r.Err {
+						resp.Setup = "typed insert failed: " + r.Msg + r.Panic
+						return resp
+					}
+					continue
+				}
 				if !setup(fmt.Sprintf("INSERT INTO %s (%s) VALUES (%s)", n, strings.Join(cs, ", "), strings.Join(vs, ", "))) {
 					return resp
 				}
@@ -463,6 +498,22 @@ func handle(req Request) Response {
 		var r Res
 		if req.Stmt {
 			r = runStmt(sess, text)
+			if !r.Hang && r.Panic == "" {
+				// the 100 ms flusher is switched off in this harness; its tick is delivered here, between statements:
+				// a statement that leaves the store locked makes the tick - and with it every later statement - hang
+				tick := guarded(func() Res {
+					if err := storage.VerifTickAll(); err != nil {
+						return Res{Err: true, Msg: err.Error()}
+					}
+					return Res{}
+				})
+				if tick.Hang {
+					r.Hang = true
+					r.Msg = "the background flush that follows this statement never gets the store's lock: " + r.Msg
+				} else if tick.Panic != "" {
+					r.Panic = "background flush after the statement: " + tick.Panic
+				}
+			}
 		} else {
 			r = runSelect(sess, text)
 		}
